@@ -131,6 +131,27 @@ def run(chk):
         slots = sorted(set(direct[k]) | {s for _, s, _ in others[k]})
         r94.ob("%s writes %s" % (f["q"], ",".join(slots)), f.get("cls") in owner_classes, f.where, f["q"],
                "function outside %s writes stack shape state %s directly" % (sorted(owner_classes), slots))
+    # absolute writes: the shape counters move only by the paired primitives (push/pop, ++/--); the saved-parameter list is emptied only where
+    # the call depth returns to 0 (R9.5 decides the condition).  `call_depth = 0`, `stacks.clear()`, `call_params.back().clear()` anywhere else
+    # break the pairing that the guards rely on: an enclosing guard's destructor then pops / decrements from the wrong level.
+    nabs = 0
+    for k in sorted(others, key=lambda k: fn_of[k]["q"]):
+        f = fn_of[k]
+        for n, slot, what in others[k]:
+            if f["kind"] == "ctor" and f.get("cls") == HOLDER:
+                continue
+            nabs += 1
+            if slot.startswith("call_params.back()"):
+                if what in ("insert", "push_back", "emplace_back", "emplace"):
+                    continue          # saving one more value never changes the shape
+                okw = f["name"] == "pop_function_call" and what == "clear"
+                r94.ob("%s: %s of the saved-parameter list" % (strip_targs(f["q"]), what), okw, "%s:%d" % (f["file"], n["l"]), f["q"],
+                       "the innermost saved-parameter list is emptied outside pop_function_call: arguments of calls that are still running are released")
+            else:
+                r94.ob("%s: %s on %s" % (strip_targs(f["q"]), what, slot), False, "%s:%d" % (f["file"], n["l"]), f["q"],
+                       "%s is set absolutely (`%s`) instead of by the paired primitives: guards that are still alive further out will pop / decrement "
+                       "from the wrong level when they unwind (e.g. call depth -1 after a failed nested eval that the script caught)" % (slot, expr_str(prog, f, n)[:60]))
+    r94.note("%d absolute / content writes examined" % nabs)
     r94.require(8, "direct writers + fields")
 
     # ---- summaries through the call graph (guard ctor/dtor of automatic objects cancel, justified by R9.2/R9.3)
